@@ -193,7 +193,7 @@ func init() {
 		Assumptions: []string{"same RFC 6902 root-replacement reading as C09 (DESIGN 5.9)", "merge-mode documents differ and carry no null as an object member value (RFC 7386 cannot express one); null elements of arrays are used"},
 	}
 	numKeys := gen.PHostile.With(func(p *gen.Profile) { p.Keys = append(append([]string{}, gen.KeysHostile...), "0", "1", "2", "12", "01", "-1", "+1", "1e3", "-") })
-	profs := []gen.Profile{gen.PDefault, gen.PTiny, gen.PDeep, gen.PNulls, gen.PHostile, numKeys, gen.PNumbers}
+	profs := []gen.Profile{gen.PDefault, gen.PTiny, gen.PDeep, gen.PNulls, gen.PHostile, numKeys, gen.PNumbers, gen.PSyntaxy}
 	p.Strata = append(p.Strata, mon.Stratum{
 		Name: "patch/random-pairs",
 		N:    qt(40000, 6000000),
